@@ -27,7 +27,7 @@ func (e *Engine) ghostArr(st *State, name string, s Sort) *Term {
 	return e.tb.Const("G0!"+name, s)
 }
 
-var ghostSorts = map[string]Sort{"setbyteslen": SInt, "closed": SArrB, "sends": SArrI, "held": SArrB, "kvput": SArrB, "kvdel": SArrB, "kvapplied": SArrI, "kvbatch": SArrB, "marks": SArrB, "ctxdone": SArrB, "ctxbounded": SArrB, "wpos": SArrI, "wbytes": SArr2I, "rfail": SArrB, "unmarshalled": SArrB, "recvcount": SInt, "recvnonnil": SInt, "bufsrc": SArrI}
+var ghostSorts = map[string]Sort{"setbyteslen": SInt, "closed": SArrB, "sends": SArrI, "held": SArrB, "kvput": SArrB, "kvdel": SArrB, "kvapplied": SArrI, "kvbatch": SArrB, "marks": SArrB, "ctxdone": SArrB, "ctxbounded": SArrB, "wpos": SArrI, "wbytes": SArr2I, "rfail": SArrB, "unmarshalled": SArrB, "recvcount": SInt, "recvnonnil": SInt, "bufsrc": SArrI, "aflag": SArrB}
 
 func (e *Engine) setGhost(st *State, name string, t *Term) {
 	st.Ghost[name] = t
@@ -486,13 +486,35 @@ func init() {
 			k(st, e.havocResults(st, fn.Signature, "wg"))
 		}
 	}
-	// atomic flags: abstract (any outcome); they carry no verified state
-	for _, n := range []string{"(*polycry.pt/poly-go/sync/atomic.Bool).TrySet", "(*polycry.pt/poly-go/sync/atomic.Bool).IsSet", "(*polycry.pt/poly-go/sync/atomic.Bool).Set",
-		"(*polycry.pt/poly-go/sync/atomic.Bool).Unset", "(*polycry.pt/poly-go/sync/atomic.Bool).TryUnset"} {
-		libSpecs[n] = func(e *Engine, st *State, fn *ssa.Function, args []Val, pos token.Pos, k Kont) {
+	// atomic flags (polycry.pt/poly-go/sync/atomic.Bool): each operation is atomic, so it has a sequential contract over the ghost
+	// array "aflag" (spec: flagset(&x.f)): TrySet sets the flag and reports whether it was unset, IsSet reads it, ...
+	flagOp := func(op string) LibFn {
+		return func(e *Engine, st *State, fn *ssa.Function, args []Val, pos token.Pos, k Kont) {
+			tb := e.tb
 			e.nilCheck(st, args[0], pos, "atomic flag through nil pointer")
-			k(st, e.havocResults(st, fn.Signature, "atomic"))
+			ref := e.mutexRef(args[0])
+			cur := e.ghostArr(st, "aflag", SArrB)
+			was := tb.Select(cur, ref)
+			switch op {
+			case "TrySet":
+				e.setGhost(st, "aflag", tb.Store(cur, ref, tb.True()))
+				k(st, scalar(tb.Not(was)))
+			case "IsSet":
+				k(st, scalar(was))
+			case "Set":
+				e.setGhost(st, "aflag", tb.Store(cur, ref, tb.True()))
+				k(st, e.havocResults(st, fn.Signature, "atomic"))
+			case "Unset":
+				e.setGhost(st, "aflag", tb.Store(cur, ref, tb.False()))
+				k(st, e.havocResults(st, fn.Signature, "atomic"))
+			case "TryUnset":
+				e.setGhost(st, "aflag", tb.Store(cur, ref, tb.False()))
+				k(st, scalar(was))
+			}
 		}
+	}
+	for _, op := range []string{"TrySet", "IsSet", "Set", "Unset", "TryUnset"} {
+		libSpecs["(*polycry.pt/poly-go/sync/atomic.Bool)."+op] = flagOp(op)
 	}
 	// sorted key-value store (polycry.pt/poly-go/sortedkv): abstract. Tables, batches and iterators are opaque non-nil values;
 	// every operation may fail; the ghost sets "kvput"/"kvdel" record which keys were written / deleted (by key string).
